@@ -16,7 +16,7 @@ PINS = [("C02", "unpackSrc"), ("C04", "textCalcsizeSrc"), ("C04", "ebcdicCalcsiz
         ("C09", "wbnavNameSrc"), ("C09", "rowIterSrc"), ("C09", "externalLoadSrc"), ("C09", "rowValuesSrc"),
         ("C14", "registrySrc"), ("C14", "closeSrcs"), ("C15", "walkSchemaSrc"), ("C15", "resolveSrc"), ("C15", "dnavSrc"),
         ("C08", "jsonTypeSrc"), ("C01", "layoutSrc"), ("C01", "navSrc"), ("C01", "odoFileSrc"), ("C07", "structureSrc"),
-        ("C07", "schemaMakerSrc"), ("C05", "recfmSrcs")]
+        ("C07", "schemaMakerSrc"), ("C05", "recfmSrcs"), ("C04", "setSchemaSrc")]
 
 HEADER = '''/-!
 # Pinned sources
